@@ -93,7 +93,7 @@ def file_lines(text):
     return [l for l in text.split('\n') if l != '']
 
 
-def check_cli(res, case, r, mode_dir, known):
+def check_cli(res, case, r, mode_dir, known, graph_only=False):
     """Oracle (b): no duplicate line in a file, per-group files pairwise disjoint, reported total = distinct lines."""
     if not r.get('ok'):
         res.count('cli:worker-' + str(r.get('exc')))
@@ -112,7 +112,7 @@ def check_cli(res, case, r, mode_dir, known):
     res.count('cli:%s' % ('dir' if mode_dir else 'file'))
     if dup or (total is not None and total != len(set(all_lines))):
         nt = not case['cfg'].get('nquads')
-        key = 'ntriples-graph-separation' if (nt and 'ntriples-graph-separation' in known and graph_only_dups(case)) else None
+        key = 'ntriples-graph-separation' if (nt and 'ntriples-graph-separation' in known and (graph_only or graph_only_dups(case))) else None
         res.violations.append({'key': key, 'sig': 'dup-lines' if key is None else key,
                                'what': 'CLI output (%s mode, %s) holds %d duplicate line(s); reported total %s, distinct %d; e.g. %r'
                                        % ('output_dir' if mode_dir else 'output_file', 'N-TRIPLES' if nt else 'N-QUADS', dup, total, len(set(all_lines)),
@@ -260,7 +260,7 @@ def run(ctx, res):
         found = False
         for t, r in zip(tries, cli_outputs(ctx, tries, False)):
             before = len(res.violations)
-            check_cli(res, t, r, False, known)
+            check_cli(res, t, r, False, known, graph_only=graph_only)
             if len(res.violations) > before:
                 found = True
                 break
